@@ -110,7 +110,9 @@ with tempfile.TemporaryDirectory() as d:
         if r is not None and r[0][:2] != b'\0\5' and not (h[:2] == b'\0\1' and r[0][:2] in (b'\0\3', b'\0\6')):
             res['bad'].append(dict(datagram=h[:40].hex(), reply=r[0][:40].hex(), why='reply is not an ERROR packet'))
         if i %% 4 == 3 or len(h) <= 2:
-            c = Client(srv.server_address, 2.0); c.rrq(b'ok.bin'); c.run()
+            c = Client(srv.server_address, 5.0); c.rrq(b'ok.bin'); c.run()
+            if not (c.finished and c.buf == data) and th.is_alive():
+                c.close(); c = Client(srv.server_address, 5.0); c.rrq(b'ok.bin'); c.run()     # once more: a loaded machine is not a dead server
             if not (c.finished and c.buf == data) or not th.is_alive():
                 res['bad'].append(dict(datagram=h[:40].hex(), length=len(h), why='after this datagram a valid request is no longer served',
                                        listener_alive=th.is_alive(), got=len(c.buf)))
